@@ -3,6 +3,7 @@ import NbioVerif.Lemmas.WsMaskProof
 import NbioVerif.Lemmas.WsTrunc
 import NbioVerif.Lemmas.WsHandshake
 import NbioVerif.Lemmas.WsUpProof
+import NbioVerif.Lemmas.WsSendQ
 /-! C12 — WebSocket message round trip: framing, masking, fragmentation, compression.
 
     Sender: `Ws.writeMessage` (WriteMessage / writeFrame) on an endpoint with configuration `gs` and environment `es`
@@ -36,6 +37,32 @@ theorem c12_roundtrip (gs gr : Cfg) (es er : Env) (hkeys : ∀ i, (es.keyAt i).l
   have he : (feed gr er {} segs []).err = none := by
     have := congrArg (fun o => o.2.1) hobs; simpa [PR.obs] using this
   exact ⟨by rw [ha, hd], he⟩
+
+/-- C12 (bounded send queue, asynchronous writes): a `WriteMessage` through a send queue of `size` slots with `qlen` taken is
+    all or nothing — accepted: it is exactly the `appWrite` of the main theorem (same frames, same state; so `c12_roundtrip`
+    speaks about the accepted messages) and each of its frames had a slot; refused: not one frame was queued and the state,
+    frame counter included, is untouched — the stream stays intact and the next accepted message is delivered as if the
+    refused one had never been written. -/
+theorem c12_sendq_all_or_nothing (g : Cfg) (e : Env) (k : K) (size qlen op : Nat) (data : Bytes) (hmf : g.maxFrame > 0) :
+    ((appWriteQ g e k size qlen op data).err = none ∧
+      appWrite g e k op data = ((appWriteQ g e k size qlen op data).k, .ok (appWriteQ g e k size qlen op data).wrote) ∧
+      (appWriteQ g e k size qlen op data).qlen = qlen + (appWriteQ g e k size qlen op data).wrote.length ∧
+      (appWriteQ g e k size qlen op data).qlen ≤ size) ∨
+    ((appWriteQ g e k size qlen op data).err ≠ none ∧ (appWriteQ g e k size qlen op data).wrote = [] ∧
+      (appWriteQ g e k size qlen op data).k = k ∧ (appWriteQ g e k size qlen op data).qlen = qlen) :=
+  appWriteQ_all_or_nothing g e k size qlen op data hmf
+
+/-- … because the admission check counts what the fragmentation loop will write: `⌈n / maxFrame⌉` frames for the `n` bytes of
+    the payload AFTER compression (one frame for an empty payload) -/
+theorem c12_sendq_frames (g : Cfg) (e : Env) (i op : Nat) (data : Bytes) (ws : List Bytes) (hmf : g.maxFrame > 0)
+    (hop : isControl op = false) (h : writeMessage g e i op data = .ok ws) :
+    ws.length = nFrames g (wirePayload g e op data).length := writeMessage_frames g e i op data ws hmf hop h
+
+/-- … and counting the frames of the payload BEFORE compression is not the same thing: a 2-byte message that deflates to 3
+    bytes (frames of 2) is admitted to the last free slot, its second frame is refused, the first one is on the wire -/
+theorem c12_sendq_precompress_counterexample :
+    (appWriteQPre sqCfg sqEnv {} 1 0 2 [7, 7]).err = some .queueFull ∧ (appWriteQPre sqCfg sqEnv {} 1 0 2 [7, 7]).wrote ≠ [] :=
+  precompress_count_breaks_stream
 
 /-- C12 (content restriction made explicit): a text message whose (inflated) payload is not valid UTF-8 is NOT delivered:
     the receiver answers with a close frame (1002 "invalid UTF-8 bytes") and closes the conn. `c12_roundtrip` therefore
